@@ -234,6 +234,7 @@ def run_spec(spec, props=("C03",)):
         else:
             arrs = list(out)
         A.outcomes.add(hsh([np.asarray(a).tolist() for a in arrs]))
+        A.count["rows_checked"] = A.count.get("rows_checked", 0) + 1
         if len(arrs[0]) > 1:
             A.nontrivial.add(pre)
         if "C03" in props and not selfmoves:
